@@ -269,7 +269,7 @@ func c06R2(c *Ctx) {
 		}
 		reasonIs := func(v int64) bool {
 			return cond.Implies(func(a *Atom) bool {
-				return a.Rel == "==" && a.L.Kind == "call" && a.L.Method != nil && a.L.Method.Name() == "RejectReason" && a.R.IsConstInt(v)
+				return a.Rel == "==" && a.L.Kind == "call" && a.L.Method != nil && cn(a.L.Method) == "RejectReason" && a.R.IsConstInt(v)
 			})
 		}
 		es := strings.Join(eff, ",")
@@ -288,7 +288,21 @@ func c06R2(c *Ctx) {
 			c.Check(es == "reject,logout", name, p.Pos(proc.Pos()), "compid-time-arm", "reason 9/10 → [reject, logout], no advance", "CompID / SendingTime problem is answered by ["+es+"]; FIX mandates Reject then Logout, without advancing the expected inbound number")
 		default:
 			seen["default"]++
-			c.Check(es == "reject,advance", name, p.Pos(proc.Pos()), "default-arm", "other rejects → [reject, advance]", "an ordinary reject is answered by ["+es+"]; expected a Reject and exactly one advance of the expected inbound number")
+			// the number is consumed exactly when the message carries the expected one (both
+			// sequence comparisons came out nil on this path); otherwise a plain Reject (D18)
+			cmpNil := func(fn *ssa.Function) bool {
+				return cond.Implies(func(a *Atom) bool {
+					return a.Rel == "==" && a.R.IsNil() && a.L.Kind == "call" && a.L.Callee == fn
+				})
+			}
+			g := getGate(p)
+			inSeq := cmpNil(g.tooHigh) && cmpNil(g.tooLow)
+			want := "reject"
+			if inSeq {
+				want = "reject,advance"
+				seen["default-consume"]++
+			}
+			c.Check(es == want, name, p.Pos(proc.Pos()), "default-arm", "other rejects → [reject], plus one advance exactly when the message carries the expected number", "an ordinary reject is answered by ["+es+"] on a path where the message's number is "+map[bool]string{true: "", false: "not "}[inSeq]+"known to equal the expected one; expected ["+want+"]")
 		}
 	})
 	// the logout arm is keyed by exactly the reasons 9 and 10
@@ -306,9 +320,13 @@ func c06R2(c *Ctx) {
 		}
 	})
 	c.Check(len(reasons) == 2 && reasons[9] && reasons[10], name, p.Pos(proc.Pos()), "logout-reasons", "reject-then-logout keyed by exactly reasons {9, 10}", fmt.Sprintf("the reject processor singles out reject reasons %v for Reject+Logout; FIX mandates exactly CompID problem (9) and SendingTime accuracy problem (10)", keys64(reasons)))
-	for _, k := range []string{"toohigh", "toolow", "beginstring", "9/10", "default"} {
+	for _, k := range []string{"toohigh", "toolow", "beginstring", "9/10", "default", "default-consume"} {
 		if seen[k] == 0 {
-			c.Violation(name, p.Pos(proc.Pos()), "missing-arm-"+k, "the reject processor has no "+k+" arm")
+			msg := "the reject processor has no " + k + " arm"
+			if k == "default-consume" {
+				msg = "no path of the ordinary-reject arm consumes the number of an in-sequence message (Reject + one advance when both sequence comparisons pass): a rejected in-sequence message would be expected again forever"
+			}
+			c.Violation(name, p.Pos(proc.Pos()), "missing-arm-"+k, msg)
 		}
 	}
 	// too-low handler: without PossDup → [logout], no advance anywhere in it
@@ -416,7 +434,7 @@ func c06R4(c *Ctx) {
 		l, r := p.Origin(b.X), p.Origin(b.Y)
 		for _, pr := range [][2]*Org{{l, r}, {r, l}} {
 			if pr[0].Kind == "field" {
-				seenCmp = append(seenCmp, pr[0].Field.Name()+" vs "+pr[1].String())
+				seenCmp = append(seenCmp, cn(pr[0].Field)+" vs "+pr[1].String())
 			}
 		}
 	})
@@ -428,10 +446,10 @@ func c06R4(c *Ctx) {
 		}
 		l, r := p.Origin(b.X), p.Origin(b.Y)
 		for _, pr := range [][2]*Org{{l, r}, {r, l}} {
-			if pr[0].Kind == "field" && pr[0].Field.Name() == "SenderCompID" && getsTag(pr[1], t56) {
+			if pr[0].Kind == "field" && cn(pr[0].Field) == "SenderCompID" && getsTag(pr[1], t56) {
 				sMirror = true
 			}
-			if pr[0].Kind == "field" && pr[0].Field.Name() == "TargetCompID" && getsTag(pr[1], t49) {
+			if pr[0].Kind == "field" && cn(pr[0].Field) == "TargetCompID" && getsTag(pr[1], t49) {
 				tMirror = true
 			}
 		}
@@ -441,7 +459,7 @@ func c06R4(c *Ctx) {
 	// a compIDProblem is returned when either differs: the return of compIDProblem() exists
 	hasProblem := false
 	for _, cl := range Calls(fn) {
-		if cal := cl.Common().StaticCallee(); cal != nil && cal.Name() == "compIDProblem" {
+		if cal := cl.Common().StaticCallee(); cal != nil && fnName(cal) == "compIDProblem" {
 			hasProblem = true
 		}
 	}
@@ -453,7 +471,7 @@ func c06R4(c *Ctx) {
 		if b, ok := in.(*ssa.BinOp); ok {
 			l, r := p.Origin(b.X), p.Origin(b.Y)
 			for _, pr := range [][2]*Org{{l, r}, {r, l}} {
-				if pr[0].Kind == "field" && pr[0].Field.Name() == "BeginString" && getsTag(pr[1], t8) {
+				if pr[0].Kind == "field" && cn(pr[0].Field) == "BeginString" && getsTag(pr[1], t8) {
 					okB = true
 				}
 			}
@@ -490,7 +508,7 @@ func c06R4(c *Ctx) {
 			continue
 		}
 		d := p.ReachCond(b)
-		skip := d.Implies(func(a *Atom) bool { return a.Rel == "" && a.Val && a.B.Kind == "field" && a.B.Field.Name() == "SkipCheckLatency" })
+		skip := d.Implies(func(a *Atom) bool { return a.Rel == "" && a.Val && a.B.Kind == "field" && cn(a.B.Field) == "SkipCheckLatency" })
 		inWindow := d.Implies(func(a *Atom) bool { return a.Rel != "" && strings.Contains(a.String(), "MaxLatency") })
 		c.Check(skip || inWindow, FuncName(tfn), p.InstrPos(r), "latency-accept", "accepted only when skipping is configured or the time is inside the window", "SendingTime check accepts under "+d.String())
 	}
